@@ -157,7 +157,7 @@ def faulty_variants(plan, seed, m):
         else:
             n = rng.choice((1, 1, 1, 2, 3))
             for _ in range(n):
-                kinds = ["open", "read", "write", "write", "git", "interrupt", "memerror"]
+                kinds = ["open", "read", "write", "write", "git", "interrupt", "memerror", "kill"]
                 if uses_listdir:
                     kinds.append("listdir")
                 k = rng.choice(kinds)
@@ -173,7 +173,7 @@ def faulty_variants(plan, seed, m):
                     faults.append({"op": "read", "nth": nth, "permille": rng.choice((0, 500, 999, rng.randrange(1000))), "errno": "EIO"})
                 elif k == "write":
                     faults.append(_write_fault(rng, mode))
-                elif k in ("interrupt", "memerror"):
+                elif k in ("interrupt", "memerror", "kill"):
                     faults.append({"op": k, "permille": rng.choice((1, 500, 999, rng.randrange(1000), rng.randrange(1000)))})
                 elif k == "listdir":
                     faults.append({"op": "listdir", "nth": rng.randrange(4), "errno": rng.choice(("EACCES", "ENOENT", "EIO", "ENOTDIR"))})
@@ -296,6 +296,7 @@ def sweep_variants(plan, twin, tier):
         pm = (1000 * j + 500) // k
         out.append([{"op": "interrupt", "permille": pm}])
         out.append([{"op": "memerror", "permille": pm}])
+        out.append([{"op": "kill", "permille": pm}])
     variants = [{"variant": "sweep-%d" % i, "faults": f, "env": {}} for i, f in enumerate(out)]
     for g in GIT_HANDLED + GIT_UNHANDLED + ("empty",):
         variants.append({"variant": "sweep-git-%s" % g, "faults": [], "env": {"git": g}})
@@ -400,12 +401,26 @@ def session_plans(tree, seed, tier):
         invs = []
         touched = {}
         year = 2026
+        prev_crashed = None
         for j, sel in enumerate(sels):
+            if prev_crashed is not None and rng.random() < 0.6:
+                # what one does after a crash: run the very same command again
+                sel = dict(prev_crashed)
+            prev_crashed = None
             if j > 0 and rng.random() < 0.35:
                 for h in rng.sample(tree.public_headers, rng.choice((1, 2, 3))):
                     touched[CODE_PREFIX + h] = touched.get(CODE_PREFIX + h, 0) + 60 * (j + 1)
             e = dict(env, clock=["%04d-0%d-01T00:00:00" % (year, 1 + j)], touched=dict(touched))
-            invs.append({"seed": seed, "run": "session-%d/%d" % (i, j), "hashseed": HASHSEEDS[i % len(HASHSEEDS)], "selection": sel, "env": e, "faults": [],
+            faults = []
+            if j < len(sels) - 1 and rng.random() < 0.3:
+                # crash this invocation somewhere (often right at the end, where a tool would be
+                # saving its state); the following invocations must not be confused by the debris
+                faults = [{"op": rng.choice(("interrupt", "kill", "kill", "memerror")), "permille": rng.choice((999, 995, 980, 500, rng.randrange(1000)))}]
+                if faults[0]["op"] == "kill" and rng.random() < 0.5:
+                    # a big job is what leaves big, half-written state behind
+                    sel = dict(sel, units="ALL")
+                prev_crashed = sel
+            invs.append({"seed": seed, "run": "session-%d/%d" % (i, j), "hashseed": HASHSEEDS[i % len(HASHSEEDS)], "selection": sel, "env": e, "faults": faults,
                          "toolchain": {"a": list(tcs[(i + j) % len(tcs)])}, "probe": {"include_order": rng.randrange(1 << 30), "api": []}})
         out.append({"seed": seed, "run": "session-%d" % i, "hashseed": HASHSEEDS[i % len(HASHSEEDS)], "session": invs})
     return out
@@ -421,3 +436,30 @@ def header_alone_cases(tree, seed, tier):
     rest = [h for h in tree.public_headers if h not in core]
     headers = core + (rest if tier == "thorough" else rng.sample(rest, min(12, len(rest))))
     return [{"seed": seed, "run": "alone-%s-%s/%s" % (h, c, s), "header_alone": h, "toolchain": {"a": [c, s]}} for h in headers for (c, s) in all_toolchains()]
+
+
+def crash_sweep_sessions(tree, seed, tier):
+    """Crash-consistency enumeration along the time axis: a fixed job is killed (or interrupted)
+    at evenly spaced steps, then the very same command is run again - and once more.  Whatever
+    the first run left behind, the re-runs must produce what a fresh run produces."""
+    rng = rng_for(seed, "crash-sweep")
+    points = [50, 150, 250, 350, 450, 550, 650, 750, 850, 930, 970, 990, 999] if tier == "quick" else list(range(20, 1000, 20)) + [995, 999]
+    small = {"units": rng.sample(tree.units, min(3, len(tree.units))), "constants": rng.sample(tree.constants, 1), "io": True}
+    big = {"units": "ALL", "constants": "ALL", "io": False}
+    out = []
+    n = 0
+    for sel in (big, small):
+        for pm in points:
+            for op in (("kill",) if tier == "quick" else ("kill", "interrupt")):
+                full = dict({"main_files": [], "version_id": "crash-sweep", "opt_order": ["units", "constants", "noio", "version"]}, **sel)
+                # a different enumeration order per crash point: what is half-written when the
+                # process dies (and where an 8 KiB block boundary cuts it) differs from run to run
+                env = {"listdir": {UNITS_DIR: {"shuffle": rng.randrange(1 << 30)}, CONSTANTS_DIR: {"shuffle": rng.randrange(1 << 30)}}, "listdir_default": "sorted", "extra_entries": {}, "git": "ok:crash-sweep", "stdout_mode": "block", "stdout_bufsize": 4096, "crlf": False, "git_repo": "tracked", "clock": ["2026-09-26T12:00:00"]}
+                hs = HASHSEEDS[n % len(HASHSEEDS)]
+                invs = []
+                for k in range(3):
+                    invs.append({"seed": seed, "run": "crash-%d/%d" % (n, k), "hashseed": hs, "selection": dict(full), "env": dict(env), "faults": [{"op": op, "permille": pm}] if k == 0 else [],
+                                 "toolchain": {"a": ["g++", "c++14"]}, "probe": {"include_order": None, "api": []}})
+                out.append({"seed": seed, "run": "crash-%d" % n, "hashseed": hs, "session": invs})
+                n += 1
+    return out
